@@ -329,18 +329,28 @@ func (c *Client) Backup(ctx context.Context, br *command.BackupRequest, nodeAddr
 
 	// The backup stream is unconditionally compressed, so depending on whether
 	// the user requested compression, we may need to decompress the response.
-	var rc io.ReadCloser
-	rc = conn
-	if !br.Compress {
-		gzr, err := gzip.NewReader(conn)
+	// Either way the stream is decompressed here: the end of the compressed
+	// stream is the only indication that the remote node sent the complete
+	// backup, as opposed to failing, or the connection breaking, part way through.
+	if br.Compress {
+		// Pass the compressed bytes through to the caller as they are read,
+		// and discard the decompressed data.
+		gzr, err := gzip.NewReader(io.TeeReader(conn, w))
 		if err != nil {
 			return err
 		}
+		defer gzr.Close()
 		gzr.Multistream(false)
-		rc = gzr
-		defer rc.Close()
+		_, err = io.Copy(io.Discard, gzr)
+		return err
 	}
-	_, err = io.Copy(w, rc)
+	gzr, err := gzip.NewReader(conn)
+	if err != nil {
+		return err
+	}
+	defer gzr.Close()
+	gzr.Multistream(false)
+	_, err = io.Copy(w, gzr)
 	return err
 }
 
